@@ -274,5 +274,5 @@ RULE = (
 )
 
 FAMILIES = [
-    Family('F1_roundtrip', 'pure', case_spec(), run_case, quick=20_000, thorough=1_500_000, shards_quick=8, rule=RULE),
+    Family('F1_roundtrip', 'pure', case_spec(), run_case, quick=20_000, thorough=1_500_000, shards_quick=8, rule=RULE, fuzz=('mpservice.multiprocessing.remote_exception',)),
 ]
